@@ -362,10 +362,13 @@ class Gen:
             for g in range(groups):
                 for j in range(e[1]):
                     vals.append(self.val(blk, name, j, first=(g == 0 and j == 0)))
-            if groups > 1 and r.random() < 0.15:
+            if groups > 1 and r.random() < 0.3:
                 # a keyword-valued value, quoted so that it stays a value
                 kw = r.choice(sorted(SPEC[blk].keys())).encode()
                 vals[r.randrange(e[1], len(vals))] = quote(r, kw, fancy=False)
+            if r.random() < 0.12:
+                # a value that only survives quoted
+                vals[r.randrange(len(vals))] = quote(r, r.choice([b'a b', b'x #y', b'{', b'}', b'p"q', b'b\\s', b'two  blanks']))
             self.d(name.encode(), *vals)
         elif t == 'b':
             self.d(name.encode(), b'{')
